@@ -336,6 +336,10 @@ def job_autograd(tier, rng, dim):
                 test('Stiefel.euler+phase', lambda: M.Stiefel(d, r, method='euler', euler_with_phase=True, dtype=dt), dim_manifold('stiefel', d, r, real), real=real, rank=r)
     for meth in ('softmax', 'sphere'):
         test(f'DiscreteProbability.{meth}', lambda: M.DiscreteProbability(d, method=meth), d - 1)
+    # scalar charts: one parameter per coordinate, differential of full rank (batch_size independent coordinates)
+    for meth in ('softplus', 'exp'):
+        test(f'PositiveReal.{meth}', lambda: M.PositiveReal(batch_size=d, method=meth), d)
+    test('OpenInterval', lambda: M.OpenInterval(-1.5, 2.5, batch_size=d), d)
     return [ob(f'{PROP}.autograd_jacobian_rank[dim={dim}]', 'pass' if bad is None else 'refuted', tier='B', backend='native', functions=['numqi.manifold (all nn.Module classes, torch branches)'],
                evaluations=cnt, distinct_nontrivial=cnt, witness=bad, native=dict(confirmed=bad is not None), sample=dict(cls='Stiefel.euler', dim=dim, rank=2, real=True))]
 
